@@ -303,7 +303,8 @@ def build_prog(name, td, want=("PartialEq", "PartialOrd", "Ord", "Hash"), laws=F
         parts.append(ref_feed(td))
         wrappers.append("pub fn ref_rec(x: &%s) -> Rec { let mut h = Rec::new(); ref_feed(x, &mut h); h }" % T)
         wrappers.append("#[cfg_attr(kani, kani::ensures(|r: &Rec| *r == ref_rec(x)))]\npub fn w_feed(x: &%s) -> Rec { let mut h = Rec::new(); Hash::hash(x, &mut h); h }" % T)
-        proofs.append("    #[kani::proof_for_contract(w_feed)]\n    pub fn feed() { let mut s = KaniSrc; let x = <%s as Mk>::mk(&mut s); let _r = w_feed(&x); kani::cover!(true); }" % T)
+        # asserted in a loop-free harness: contract instrumentation of the recording Hasher's byte loops costs minutes per harness
+        proofs.append("    #[kani::proof]\n    pub fn feed() { let mut s = KaniSrc; let x = <%s as Mk>::mk(&mut s); let r = w_feed(&x); assert!(r == ref_rec(&x), \"postcondition of w_feed\"); kani::cover!(true); }" % T)
         replays.append('        "feed" => { let x = <%s as Mk>::mk(&mut s); let d = w_feed(&x); let r = ref_rec(&x); (d == r, format!("x={:?} derived feed = {:?} (len {}), documented feed = {:?} (len {})", x, &d.buf[..d.len.min(32)], d.len, &r.buf[..r.len.min(32)], r.len)) }' % T)
         harnesses.append("feed")
     if laws:
@@ -332,7 +333,10 @@ def law_harnesses(td):
         w.append("#[cfg_attr(kani, kani::ensures(|r: &bool| *r))]\npub fn lw_%s(%s) -> bool { %s }" % (name, args, cond))
         mk = " ".join("let %s = <%s as Mk>::mk(&mut s);" % (v, T) for v in "xyz"[:nvals])
         call = ", ".join("&" + v for v in "xyz"[:nvals])
-        p.append("    #[kani::proof_for_contract(lw_%s)]\n    pub fn law_%s() { let mut s = KaniSrc; %s let _r = lw_%s(%s); kani::cover!(true); }" % (name, name, mk, name, call))
+        if name == "eq_hash":
+            p.append("    #[kani::proof]\n    pub fn law_%s() { let mut s = KaniSrc; %s let r = lw_%s(%s); assert!(r, \"postcondition of lw_%s\"); kani::cover!(true); }" % (name, mk, name, call, name))
+        else:
+          p.append("    #[kani::proof_for_contract(lw_%s)]\n    pub fn law_%s() { let mut s = KaniSrc; %s let _r = lw_%s(%s); kani::cover!(true); }" % (name, name, mk, name, call))
         fmtv = " ".join("%s={:?}" % v for v in "xyz"[:nvals])
         r.append('        "law_%s" => { %s let ok = lw_%s(%s); (ok, format!("%s law `%s` holds = {:?}", %s, ok)) }' % (name, mk, name, call, fmtv, text, ", ".join("xyz"[:nvals])))
         h.append("law_" + name)
